@@ -37,6 +37,11 @@ CLAIMED = {
          "Generated call histories against an explicit reference model; sampled by rapid.",
          "For *IgnoreInvalid the model only demands a subsequence of the valid inputs that contains every valid ASCII-named input (what happens to valid non-ASCII names is not fixed by the property) and follows the getter there.",
          "DESIGN.md section 3, C06"),
+ "C07": ("fault_enumeration",
+         "exhaustive product of TLS policy x 13 auth types x host kind x server behaviour (STARTTLS advertised/refused/garbled, certificate valid/wrong-name/untrusted, garbage handshake, AUTH lists) over real TCP with the default dialers and the client's default tls.Config; oracle: byte-exact cleartext tap scanned for non-permitted commands and for every encoding of the per-case random credentials",
+         "The configuration product is enumerated completely in both tiers (quick: 2 advertised AUTH lists, thorough: 7); credentials are fresh random tokens per case.",
+         "Real TCP on 127.0.0.1/127.0.0.2; the harness CA is installed as the only system root through SSL_CERT_FILE so that the client's default verification is what is tested; server behaviours are the enumerated ones, not arbitrary byte streams.",
+         "DESIGN.md section 3, C07"),
  "C11": ("exploration",
          "rapid-generated message programs x generated histories of render operations (WriteTo, Write, NewReader, UpdateReader, WriteToFile, WriteToTempFile, failed renders by sink or producer fault); metamorphic oracle: every successful output is byte-identical to the first",
          "Generated histories against a byte-equality oracle; shapes, file sources/encodings and op sequences are sampled by rapid. Map-order dependent differences need several renders to show, so every history renders at least 4 times.",
